@@ -70,7 +70,10 @@ def strip_strings(line):
 def gen(nper, seed):
     rnd = random.Random(seed)
     res = []
+    only = os.environ.get("MECH_FILES", "").split()
     for f in FILES:
+        if only and f not in only:
+            continue
         path = os.path.join("/repo", f)
         if not os.path.exists(path):
             continue
@@ -152,7 +155,7 @@ def run(listf, idx, n, outdir, vdir):
                 m["status"] = "stillborn"
                 json.dump(m, open(of, "w"))
                 continue
-            rc, out = sh("go test -vet=off -count=1 ./...", cwd=wt, timeout=600)
+            rc, out = sh("go test -vet=off -count=1 -timeout 120s ./...", cwd=wt, timeout=600)
             if rc:
                 m["status"] = "killed-by-suite"
                 json.dump(m, open(of, "w"))
